@@ -17,7 +17,7 @@ class Profile:
 
     def __init__(self, **kw):
         self.hierarchy = True
-        self.max_types = 2
+        self.max_types = 3  # chains of three make "objects of a grandchild type" possible
         self.max_objects = 4
         self.max_fluents = 4
         self.fluent_kinds = ["bool", "bool", "int", "real", "obj"]
@@ -64,6 +64,7 @@ class Profile:
         self.bounded_p = None  # probability that a numeric fluent type carries bounds (None: 0.6 int / 0.5 real)
         self.zero_bound_p = 0.25  # ... that a bounded type has 0 as an endpoint
         self.self_update_p = 0.25  # ... that a numeric assignment is  f := f +/- c
+        self.param_name_pool = None  # names for action parameters AND (half of the) bound variables: capture-prone
         for k, v in kw.items():
             if not hasattr(self, k):
                 raise AttributeError(k)
@@ -453,6 +454,8 @@ class Gen:
         vn = f"v{len(scope['vars'])}"
         if self.b(0.15) and scope["vars"]:
             vn = scope["vars"][-1][0]  # shadowing
+        elif self.p.param_name_pool and self.b(0.5):
+            vn = self.pick(self.p.param_name_pool)  # may coincide with an action parameter (also up to case)
         sc2 = dict(scope)
         sc2["vars"] = scope["vars"] + [(vn, vt)]
         if k == "exists" and self.p.exists_eq_bias and self.b(0.5):
@@ -495,7 +498,10 @@ class Gen:
                 if self.b(0.3):
                     # a supertype of the parameter type would be ill-typed; use a subtype or the type
                     vt = ["user", self.pick(self.subtypes(vt[1]))]
-                forall = [[f"e{len(scope['vars'])}", vt]]
+                en = f"e{len(scope['vars'])}"
+                if self.p.param_name_pool and self.b(0.4):
+                    en = self.pick(self.p.param_name_pool)
+                forall = [[en, vt]]
                 sc = dict(scope)
                 sc["vars"] = scope["vars"] + [(forall[0][0], vt)]
         # target
@@ -546,11 +552,18 @@ class Gen:
     def gen_action(self, idx):
         nparams = self.i(0, self.p.max_params)
         params = []
+        pnames = [f"p{k}" for k in range(nparams)]
+        if self.p.param_name_pool:
+            pool = list(self.p.param_name_pool)
+            pnames = []
+            for k in range(nparams):
+                cand = [n for n in pool if n not in pnames]
+                pnames.append(self.pick(cand) if cand else f"p{k}")
         for k in range(nparams):
             if self.p.int_params and self.b(0.15):
-                params.append([f"p{k}", ["int", 0, self.i(1, 2)]])
+                params.append([pnames[k], ["int", 0, self.i(1, 2)]])
             else:
-                params.append([f"p{k}", ["user", self.pick(self.types)[0]]])
+                params.append([pnames[k], ["user", self.pick(self.types)[0]]])
         scope = {"params": [(n, t) for n, t in params], "vars": []}
         pre = [self.bool_expr(scope, self.i(0, self.p.max_depth)) for _ in range(self.i(0, self.p.max_pre))]
         effs = []
